@@ -3,6 +3,7 @@ package main
 
 import (
 	"bytes"
+	"context"
 	"fmt"
 	"net"
 	"regexp"
@@ -10,6 +11,8 @@ import (
 	"strings"
 	"time"
 
+	"github.com/cloudwego/hertz/pkg/app"
+	"github.com/cloudwego/hertz/pkg/app/server"
 	"github.com/cloudwego/hertz/pkg/common/config"
 	"github.com/cloudwego/hertz/pkg/network/standard"
 	"github.com/cloudwego/hertz/pkg/protocol"
@@ -17,6 +20,7 @@ import (
 	"github.com/cloudwego/hertz/pkg/route"
 
 	"verif/harness/lib/crig"
+	"verif/harness/lib/loop"
 	"verif/harness/lib/mon"
 	"verif/harness/lib/rig"
 	"verif/harness/lib/sconn"
@@ -85,6 +89,109 @@ func work(w *mon.W) {
 	w.Cases("server-big", uint64(w.Pick(200, 4000)), func(c *mon.Case) { serverStream(w, c, get, "big", exh) })
 	w.Cases("client", uint64(w.Pick(1200, 20000)), func(c *mon.Case) { clientStream(w, c, false, exh) })
 	w.Cases("client-mutated", uint64(w.Pick(600, 10000)), func(c *mon.Case) { clientStream(w, c, true, exh) })
+	// real servers on a loopback port (standard transport with and without the
+	// client-disconnection sensing, netpoll): the same pipelined stream written whole and in
+	// two writes a few milliseconds apart must be answered with the same bytes.  (TCP may
+	// still coalesce the two writes; that can hide a difference, never make one.)
+	var lbs [3]*loop.Server
+	defer func() {
+		for _, lb := range lbs {
+			if lb != nil {
+				lb.Stop()
+			}
+		}
+	}()
+	w.Cases("server-loopback", uint64(w.Pick(48, 1200)), func(c *mon.Case) {
+		r := c.R
+		k := r.Intn(3)
+		if lbs[k] == nil {
+			var opts []config.Option
+			if k == 1 {
+				opts = append(opts, server.WithSenseClientDisconnection(true))
+			}
+			lb, err := loop.Start(k == 2, func(h *server.Hertz) {
+				h.NoRoute(func(cc context.Context, ctx *app.RequestContext) {
+					ctx.Response.SetBodyString(fmt.Sprintf("%s %s %d:%08x", ctx.Method(), ctx.Request.RequestURI(), len(ctx.Request.Body()), crigHash(ctx.Request.Body())))
+				})
+			}, opts...)
+			if err != nil {
+				w.Note("loopback server did not start: " + err.Error())
+				return
+			}
+			lbs[k] = lb
+		}
+		lb := lbs[k]
+		n := 2 + r.Intn(2)
+		var stream []byte
+		var starts []int
+		for i := 0; i < n; i++ {
+			starts = append(starts, len(stream))
+			if r.Bool() {
+				b := wire.PosBody(i, r.Int(1, 10, 100, 3000))
+				stream = append(stream, fmt.Sprintf("POST /p%d-%d HTTP/1.1\r\nHost: x\r\nContent-Length: %d\r\n\r\n", c.I, i, len(b))...)
+				stream = append(stream, b...)
+			} else {
+				stream = append(stream, fmt.Sprintf("GET /g%d-%d?q=%d HTTP/1.1\r\nHost: x\r\nX-Pad: %s\r\n\r\n", c.I, i, i, strings.Repeat("p", r.Intn(40)))...)
+			}
+		}
+		complete := func(out []byte) bool { return responsesComplete(out, n) }
+		name := []string{"standard", "standard+SenseClientDisconnection", "netpoll"}[k]
+		exchange := func(frags [][]byte) string {
+			out, closed, err := lb.Exchange(frags, 12*time.Millisecond, 5*time.Second, complete)
+			if err != nil && !responsesComplete(out, n) {
+				return "INCOMPLETE " + err.Error()
+			}
+			_ = closed
+			return string(dateRe.ReplaceAll(out, []byte("Date: X")))
+		}
+		ref := exchange([][]byte{stream})
+		if strings.HasPrefix(ref, "INCOMPLETE") {
+			w.Note("loopback reference exchange incomplete (" + ref + "); case skipped")
+			return
+		}
+		w.Count("loopback_reference_runs", 1)
+		for t := 0; t < 4; t++ {
+			// split inside one of the follow-up requests (or anywhere, for the last try)
+			at := 1 + r.Intn(len(stream)-1)
+			if t < 3 {
+				j := 1 + r.Intn(n-1)
+				end := len(stream)
+				if j+1 < n {
+					end = starts[j+1]
+				}
+				at = starts[j] + r.Intn(end-starts[j])
+				if at == 0 {
+					at = 1
+				}
+			}
+			got := exchange([][]byte{stream[:at], stream[at:]})
+			w.Count("loopback_split_runs", 1)
+			if got != ref {
+				c.Detail = func() interface{} {
+					return map[string]interface{}{"family": "server-loopback", "server": name, "stream": string(stream), "split_at": at}
+				}
+				c.Violate("segmentation-server", "real %s server: the stream of %d pipelined requests written in two writes (split at byte %d, %d bytes into request %d) is answered differently from the same stream written at once:\n whole: %s\n split: %s", name, n, at, at-starts[reqOf(starts, at)], reqOf(starts, at), trunc(strings.ReplaceAll(ref, "\r\n", "\\r\\n"), 500), trunc(strings.ReplaceAll(got, "\r\n", "\\r\\n"), 500))
+				return
+			}
+		}
+		w.Shape(mon.Hash64("server-loopback", k, string(stream)))
+	})
+}
+
+func reqOf(starts []int, at int) int {
+	j := 0
+	for i, s := range starts {
+		if at >= s {
+			j = i
+		}
+	}
+	return j
+}
+
+// responsesComplete: out holds n complete fixed-length responses.
+func responsesComplete(out []byte, n int) bool {
+	msgs, err := wire.ParseResponses(out, nil, true)
+	return err == nil && len(msgs) >= n
 }
 
 // segmentations enumerates the fragment schedules for a stream.
